@@ -795,3 +795,103 @@ func MappingWithJunk(r *core.Rand) ([]byte, Shape) {
 	out := append([]byte{byte(len(body) >> 8), byte(len(body))}, body...)
 	return out, Shape{"pairs": len(m.Pairs), "junk": len(junk)}
 }
+
+// ---------------------------------------------------------------- lattice corners
+
+// CornerModels returns extreme-but-legal model values (maximal counts, longest strings,
+// largest keys) keyed by structure kind; encodings of these are fed to every parser sweep.
+type Corner struct {
+	Kind  string
+	Name  string
+	Model any
+	Bytes []byte
+}
+
+func bigMapping(r *core.Rand, pairs int, keyLen, valLen int) rm.Mapping {
+	var m rm.Mapping
+	for i := 0; i < pairs; i++ {
+		k := append([]byte(fmt.Sprintf("%04d", i)), r.Bytes(keyLen-4)...)
+		m.Pairs = append(m.Pairs, rm.Pair{K: k, V: r.Bytes(valLen)})
+	}
+	return m
+}
+
+func Corners(r *core.Rand) []Corner {
+	var out []Corner
+	add := func(kind, name string, model any, b []byte) { out = append(out, Corner{kind, name, model, b}) }
+
+	// mappings
+	m1 := bigMapping(r, 127, 255, 255) // 127*(4+510) = 65278 bytes
+	add("mapping", "127 pairs of 255-byte strings", m1, m1.Encode())
+	m2 := bigMapping(r, 1000, 4, 0)
+	add("mapping", "1000 minimal pairs", m2, m2.Encode())
+	m3 := rm.Mapping{Pairs: []rm.Pair{{K: []byte{}, V: []byte{}}}}
+	add("mapping", "single empty key and value", m3, m3.Encode())
+
+	// router address / info
+	a := RouterAddress(r)
+	a.Style = r.Bytes(255)
+	a.Options = bigMapping(r, 60, 255, 255)
+	add("raddr", "255-byte style, 60 maximal pairs", a, a.Encode())
+	ri, _ := RouterInfo(r)
+	ri.Addrs = nil
+	for i := 0; i < 255; i++ {
+		x := RouterAddress(r)
+		x.Options = rm.Mapping{Pairs: []rm.Pair{{K: []byte("host"), V: []byte(fmt.Sprintf("10.0.%d.%d", i/256, i%256))}}}
+		ri.Addrs = append(ri.Addrs, x)
+	}
+	add("rinfo", "255 addresses", ri, ri.Encode())
+	ri0, _ := RouterInfo(r)
+	ri0.Addrs = nil
+	ri0.Options = bigMapping(r, 100, 200, 200)
+	add("rinfo", "no address, 100 large options", ri0, ri0.Encode())
+
+	// leasesets
+	ls, _ := LeaseSet(r)
+	ls.Leases = nil
+	for i := 0; i < 16; i++ {
+		ls.Leases = append(ls.Leases, Lease(r))
+	}
+	add("leaseset", "16 leases", ls, ls.Encode())
+	for _, tt := range []int{6, 5, 3, 0} {
+		l2, sh := LeaseSet2(r)
+		st := sh["sig"].(int)
+		o := OfflineOf(r, st, tt)
+		l2.Offline, l2.Flags = &o, 1
+		l2.Keys, l2.Leases = nil, nil
+		for i := 0; i < 16; i++ {
+			t := []int{0, 4, 5, 6, 7, 1, 2, 3}[i%8]
+			n, _ := rm.CryptoLen(t)
+			l2.Keys = append(l2.Keys, rm.EncKey{Type: uint16(t), Data: r.Bytes(n)})
+			l2.Leases = append(l2.Leases, Lease2(r))
+		}
+		l2.Options = bigMapping(r, 40, 100, 100)
+		sl, _ := rm.SigLen(tt)
+		l2.Sig = r.Bytes(sl)
+		add("leaseset2", fmt.Sprintf("16 keys, 16 leases, 40 options, offline transient type %d", tt), l2, l2.Encode())
+	}
+	ml, _ := MetaLeaseSet(r)
+	ml.Entries = nil
+	for i := 0; i < 16; i++ {
+		var e rm.MetaEntry
+		copy(e.Hash[:], r.Bytes(32))
+		e.Type = []byte{1, 3, 5}[i%3]
+		e.Expires, e.Cost = r.Uint32(), byte(i)
+		e.Props = bigMapping(r, 3, 50, 50)
+		ml.Entries = append(ml.Entries, e)
+	}
+	add("metaleaseset", "16 entries with properties", ml, ml.Encode())
+	el, _ := EncryptedLeaseSet(r)
+	el.Inner = r.Bytes(65535)
+	add("encleaseset", "65,535 bytes of inner data", el, el.Encode())
+
+	// certificates / identities
+	c := rm.Cert{Type: rm.CertHashcash, Payload: r.Bytes(65535)}
+	add("cert", "65,535-byte payload", c, c.Encode())
+	k, _ := KACOf(r, 7, 4)
+	k.Cert = rm.KeyCert(7, 4, r.Bytes(4000))
+	add("kac", "key certificate with 4000 excess bytes", k, k.Encode())
+	add("dest", "key certificate with 4000 excess bytes", k, k.Encode())
+	add("rident", "key certificate with 4000 excess bytes", k, k.Encode())
+	return out
+}
